@@ -30,6 +30,20 @@ def run(ctx):
     for m in (SAFETY_MUTANTS[:4] if q else SAFETY_MUTANTS):
         destlib.mc(ctx, "Destination_c07.cfg", dict(tiny, Mutant=m), expect={"Conservation", "QuiescentBound", "Conservation_steady"}, count=False)
 
+    # the spool is the disk queue: a backlog that spans several spool files is read back by a reader that is files behind
+    # the writer.  The queue model (DiskQueue.tla, exhaustive in C08/C09) keeps every record of a file whose records end exactly
+    # at the size limit; a reader that leaves such a file early when it is behind the writer loses the record the writer still
+    # put into it -- rejected by the model, and the spoolroll scenarios below put the real queue into that position under a
+    # real destination.
+    r = ctx.tlc("DiskQueue", "DiskQueue_mc.cfg", consts=dict(MaxFile=2, SyncEvery=2, Sizes={1, 2}, MaxPuts=4, MaxCrashes=0, AllowReopen=False,
+                                                              AllowTick=True, PostPuts=1, Mutant="reader_roll_ge_behind"),
+                expect_ok=False, count=False, tag="nv_reader_roll")
+    if r["violated"] not in ("C09Fifo", "C09Depth", "C09DepthRest", "NoSkip"):
+        raise Machinery("deviation reader_roll_ge_behind is not rejected by the queue model (violated=%s): vacuity" % r["violated"])
+    if not q:
+        ctx.tlc("DiskQueue", "DiskQueue_mc.cfg", consts=dict(MaxFile=2, SyncEvery=2, Sizes={1, 2}, MaxPuts=5, MaxCrashes=0, AllowReopen=False,
+                                                              AllowTick=True, PostPuts=1, Mutant=""), timeout=3000)
+
     # 2. real destinations with spool=true against endpoint incarnations on one port
     scns = destlib.c07_scenarios(ctx)
     ctx.log("C07 scenarios: %d" % len(scns))
@@ -112,6 +126,15 @@ def run(ctx):
     if bad and not ctx.violations:
         raise Machinery("dead-send gate did not fire: %s" % json.dumps(bad[:3]))
     ctx.cov["dead_send_gates_fired"] = len(dss) - len(bad)
+
+    # the spoolroll scenarios must really have rolled spool files while the reader was behind
+    rolls = [s for s in scns if s["name"].startswith("spoolroll-")]
+    weak = [dict(scenario=s["name"], maxfile=finals[s["id"]].get("spool_maxfile"), together=finals[s["id"]].get("spool_maxfiles"))
+            for s in rolls if finals[s["id"]].get("spool_maxfile", -1) < 3 or finals[s["id"]].get("spool_maxfiles", 0) < 2]
+    if weak and not ctx.violations:
+        raise Machinery("spool files did not roll with the reader behind: %s" % json.dumps(weak[:3]))
+    ctx.cov["spool_file_rolls"] = [dict(scenario=s["name"], highest_file=finals[s["id"]].get("spool_maxfile"),
+                                        files_together=finals[s["id"]].get("spool_maxfiles")) for s in rolls]
 
     # 4. binding self-tests
     def m1(recs):
